@@ -1426,7 +1426,8 @@ func (p *Parser) parseCase() ast.Expression {
 	// Handle alias
 	if p.currentIs(token.AS) {
 		p.nextToken()
-		if p.currentIs(token.IDENT) {
+		// The alias can be an identifier or a keyword (ClickHouse allows keywords as aliases)
+		if p.currentIs(token.IDENT) || p.current.Token.IsKeyword() {
 			expr.Alias = p.current.Value
 			expr.QuotedAlias = p.current.Quoted
 			p.nextToken()
@@ -3024,7 +3025,7 @@ func (p *Parser) parseAsteriskReplace(asterisk *ast.Asterisk) ast.Expression {
 
 		if p.currentIs(token.AS) {
 			p.nextToken()
-			if p.currentIs(token.IDENT) {
+			if p.currentIs(token.IDENT) || p.current.Token.IsKeyword() {
 				replace.Name = p.current.Value
 				p.nextToken()
 			}
@@ -3264,7 +3265,7 @@ func (p *Parser) parseColumnsReplace(matcher *ast.ColumnsMatcher) ast.Expression
 
 		if p.currentIs(token.AS) {
 			p.nextToken()
-			if p.currentIs(token.IDENT) {
+			if p.currentIs(token.IDENT) || p.current.Token.IsKeyword() {
 				replace.Name = p.current.Value
 				p.nextToken()
 			}
